@@ -32,7 +32,7 @@ Section Rel.
     let K := kwalk fk h u root false follow cwdn (repeat DD k ++ names) 0 false in
     let r := search_loop fi h v slm root root (pi_new Linux (abs_path cs')) 0 None in
     K <> WErr EFUEL -> sr_err r <> EFuel ->
-    walk_rel h u root (precise_of slm) r K.
+    walk_relx h u root (precise_of slm) r K.
   Proof.
     intros Hng Hne cs' K r Hk Hnf. subst K r.
     assert (Hgb' : Forall good_comp (firstn (length bs - k) bs)) by (apply firstn_good; exact Hbs).
@@ -47,11 +47,12 @@ Section Rel.
       pose proof (search_loop_mono (S (length cs')) fi h v slm root root _ 0 None _ eq_refl Hnf) as Hm2.
       rewrite <- Hm2. unfold cs' in *. rewrite app_nil_r in *.
       destruct (search_rewalk_full h v Hos _ root p [] _ fi slm root _ 0 None eq_refl Hok' (pi_new_before _) Hp1 Hrp)
-        as (R1 & R2 & R3 & R4).
+        as (R1 & R2 & R3 & R4 & R5).
       cbn. change (S (length (firstn (length bs - S k) bs)) + fi) with (S (length (firstn (length bs - S k) bs) + fi)).
       split; [exact R1|]. split; [exact R2|].
       split; [apply node_is_dir_valid; exact (proj1 (dwalk_end_dir _ _ _ _ _ Hp1 Hrd Hrp))|].
-      split; [exact R3|]. split; [intros _; apply R4; reflexivity|]. intros [=].
+      split; [exact R3|]. split; [intros _; apply R4; reflexivity|]. split; [intros [=]|].
+      intros _ _. exists (firstn (length bs - S k) bs). split; [exact Hgb'|]. split; [exact Hp1|exact (R5 eq_refl)].
     - assert (Hw' : c0 :: w <> []) by discriminate.
       destruct (kwalk_dotdots h u root Hwf Hrd Hrp k bs cwdn (c0 :: w) fk false follow 0 false Hw' Hcwd)
         as (cur' & Hc1 & Hc2).
@@ -68,7 +69,7 @@ Section Rel.
     let K := kwalk fk h u root false follow cwdn [[DOT]] 0 false in
     let r := search_loop fi h v slm root root (pi_new Linux (abs_path bs)) 0 None in
     K <> WErr EFUEL -> sr_err r <> EFuel ->
-    walk_rel h u root (precise_of slm) r K.
+    walk_relx h u root (precise_of slm) r K.
   Proof.
     intros K r Hk Hnf. subst K r. destruct fk as [|fk]; [cbn [kwalk] in Hk; congruence|].
     destruct (dwalk_end_dir _ _ _ _ _ Hcwd Hrd Hrp) as (Hd & Hp).
@@ -77,10 +78,11 @@ Section Rel.
     pose proof (search_loop_mono (S (length bs)) fi h v slm root root _ 0 None _ eq_refl Hnf) as Hm2.
     rewrite <- Hm2.
     destruct (search_rewalk_full h v Hos bs root cwdn [] bs fi slm root _ 0 None eq_refl Hok (pi_new_before _) Hcwd Hrp)
-      as (R1 & R2 & R3 & R4).
+      as (R1 & R2 & R3 & R4 & R5).
     cbn. change (S (length bs) + fi) with (S (length bs + fi)).
     split; [exact R1|]. split; [exact R2|]. split; [apply node_is_dir_valid; exact Hd|].
-    split; [exact R3|]. split; [intros _; apply R4; reflexivity|]. intros [=].
+    split; [exact R3|]. split; [intros _; apply R4; reflexivity|]. split; [intros [=]|].
+    intros _ _. exists bs. split; [exact Hbs|]. split; [exact Hcwd|exact (R5 eq_refl)].
   Qed.
 End Rel.
 
@@ -93,7 +95,7 @@ Proof.
   unfold path_comps. rewrite Hc. apply filter_ne_id. apply rel_comps_ok. exact Hg.
 Qed.
 
-Theorem sym_bridge_lookup_rel (s : fsys) (sv : sview) (slm : slmode) (bs : list str) (x : str) :
+Theorem sym_bridge_lookup_rel_x (s : fsys) (sv : sview) (slm : slmode) (bs : list str) (x : str) :
   let v := sv_view sv in
   let h := f_heap s in
   let p := clean Linux x in
@@ -104,7 +106,7 @@ Theorem sym_bridge_lookup_rel (s : fsys) (sv : sview) (slm : slmode) (bs : list 
   let K := klookup s sv false (follow_of slm) p in
   let r := search_node s v p slm in
   K <> WErr EFUEL -> sr_err r <> EFuel ->
-  walk_rel h (v_user v) (v_root v) (precise_of slm) r K.
+  walk_relx h (v_user v) (v_root v) (precise_of slm) r K.
 Proof.
   intros v h p Hos Hwf Hlc Hrd Hrp Hcwd Hbs Hw Hrel K r. subst K r.
   unfold search_node. rewrite Hos, Hcwd. unfold abs. rewrite Hrel, (join_abs_any _ Hbs).
@@ -121,6 +123,23 @@ Proof.
     unfold klookup. change (kabs [DOT]) with false. change (kcomps [DOT]) with [[DOT]]. change (ktrailing [DOT]) with false.
     cbv iota.
     apply rel_bridge_dot; assumption.
+Qed.
+
+Theorem sym_bridge_lookup_rel (s : fsys) (sv : sview) (slm : slmode) (bs : list str) (x : str) :
+  let v := sv_view sv in
+  let h := f_heap s in
+  let p := clean Linux x in
+  v_os v = Linux -> walk_wf h -> links_clean h -> node_is_dir h (v_root v) = true ->
+  kperm h (v_root v) 1 (v_user v) = true ->
+  v_cwd v = abs_path bs -> Forall good_comp bs -> dwalk h (v_user v) (v_root v) bs = Some (sv_cwd sv) ->
+  is_abs Linux p = false ->
+  let K := klookup s sv false (follow_of slm) p in
+  let r := search_node s v p slm in
+  K <> WErr EFUEL -> sr_err r <> EFuel ->
+  walk_rel h (v_user v) (v_root v) (precise_of slm) r K.
+Proof.
+  intros v h p H1 H2 H3 H4 H5 H6 H7 H8 H9 K r H10 H11. apply walk_relx_rel.
+  apply (sym_bridge_lookup_rel_x s sv slm bs x); assumption.
 Qed.
 
 (* non-vacuity: the example tree of WalkSym.v, working directory "/d/e" (node 2), paths "../up" (a link to "..",
